@@ -122,9 +122,9 @@ func hasLabel(cls []*Clause, kind, prop string) bool {
 }
 
 // Verify runs the symbolic execution of x.fn and collects obligations for property x.prop.
-func (x *Exec) Verify() *VerifyResult {
+func (x *Exec) Verify() (res *VerifyResult) {
 	c := x.contract
-	res := &VerifyResult{Key: x.key}
+	res = &VerifyResult{Key: x.key}
 	if c == nil {
 		res.Aborted = "no contract"
 		return res
@@ -175,6 +175,7 @@ func (x *Exec) Verify() *VerifyResult {
 		gt := gctx.resolveType(g.Type)
 		x.ghostDecl[g.Name] = gt
 		st.ghost[g.Name] = x.symbolic(st, gt, "ghost."+g.Name, true, 0)
+		x.ghostBound(st, g.Name)
 	}
 	// parameters
 	var params []SVal
@@ -185,6 +186,19 @@ func (x *Exec) Verify() *VerifyResult {
 	}
 	fr := x.newFrame(fn, params, 0, true)
 	fr.contract = c
+	// closures verified on their own: captured variables are arbitrary cells
+	x.freeVarNames = map[string]EV{}
+	for _, fv := range fn.FreeVars {
+		pv := x.symbolic(st, fv.Type(), fv.Name(), true, 0)
+		if p, ok := pv.(*PtrV); ok {
+			p.IsNil = x.tb.False()
+			fr.env[fv] = p
+			x.freeVarNames[fv.Name()] = EV{V: x.load(st, p, p.Elem), T: p.Elem}
+		} else {
+			fr.env[fv] = pv
+			x.freeVarNames[fv.Name()] = EV{V: pv, T: fv.Type()}
+		}
+	}
 	// requires
 	sig := fn.Signature
 	ecReq := x.evalCtxFor(c, st, st, nil, params, sigWithRecv(fn), nil, false)
@@ -301,6 +315,7 @@ func (x *Exec) atReturn(fr *Frame, c *Contract, entry, st *State, params, result
 	if checkFrame {
 		allowed := map[*Object]*SliceV{}
 		whole := map[*Object]bool{}
+		exempt := map[*Object][][]int{}
 		ecm := x.evalCtxFor(c, entry, entry, nil, params, sig, nil, false)
 		var labels []string
 		for _, m := range mods {
@@ -312,18 +327,20 @@ func (x *Exec) atReturn(fr *Frame, c *Contract, entry, st *State, params, result
 						continue
 					}
 				}
-				if err := x.guard("modifies", func() {
+				_ = x.guard("modifies", func() {
 					v := ecm.Eval(me)
 					switch lv := v.V.(type) {
 					case *SliceV:
 						allowed[lv.Obj] = lv
 					case *PtrV:
 						whole[lv.Obj] = true
+					default:
+						// a field of a single object: exempt that path only
+						if loc := ecm.evalLoc(me); loc != nil && !loc.Obj.Array {
+							exempt[loc.Obj] = append(exempt[loc.Obj], loc.Path)
+						}
 					}
-				}); err != nil {
-					x.contractError(err)
-					return
-				}
+				})
 			}
 		}
 		for o, s0 := range entry.mem {
@@ -334,7 +351,16 @@ func (x *Exec) atReturn(fr *Frame, c *Contract, entry, st *State, params, result
 			if !ok || s1 == s0 {
 				continue
 			}
-			g := x.objUnchanged(o, s0, s1, allowed[o])
+			var g *Term
+			if ps := exempt[o]; len(ps) > 0 && !o.Array {
+				a, b := s0.Val, s1.Val
+				for _, pth := range ps {
+					b = setPath(b, pth, getPath(a, pth))
+				}
+				g = x.svalEq(a, b)
+			} else {
+				g = x.objUnchanged(o, s0, s1, allowed[o])
+			}
 			if g.IsTrue() {
 				continue
 			}
@@ -355,8 +381,31 @@ func (x *Exec) atReturn(fr *Frame, c *Contract, entry, st *State, params, result
 		for _, gs := range c.ByKind("ghostset") {
 			listed[gs.Exprs[0].Name] = true
 		}
+		ecl := x.evalCtxFor(c, entry, entry, nil, params, sig, nil, false)
+		for _, m := range mods {
+			for _, me := range m.Exprs {
+				me := me
+				_ = x.guard("modifies", func() {
+					if pv, ok := ecl.tryEvalPtr(me); ok {
+						listed[bbKey(pv)] = true
+					} else {
+						listed[bbKey(ecl.evalLoc(me))] = true
+					}
+				})
+			}
+		}
+		for name, v1 := range st.ghost {
+			if strings.HasPrefix(name, "bb:") && !listed[name] {
+				// a buffer of a pre-existing object touched by this function must be listed
+				if v0, ok := entry.ghost[name]; !ok || v0 != v1 {
+					if bg, isB := v1.(*bbGhost); isB && bg != nil {
+						x.addObl(st, fmt.Sprintf("%s/frame(buffer %s may change but is not listed in a modifies clause)", x.key, name), "frame", x.bbUnchanged(entry, st, name), token.NoPos, nil)
+					}
+				}
+			}
+		}
 		for name, v0 := range entry.ghost {
-			if listed[name] || strings.HasPrefix(name, "sb:") {
+			if listed[name] || strings.HasPrefix(name, "sb:") || strings.HasPrefix(name, "bb:") {
 				continue
 			}
 			if _, declared := x.ghostDecl[name]; !declared {
